@@ -20,7 +20,7 @@ typedef struct
     size_t data_len;
 } region_t;
 
-#define MAX_REGIONS 256
+#define MAX_REGIONS 8192
 static region_t regions[MAX_REGIONS];
 
 static size_t page_size(void)
@@ -56,8 +56,7 @@ static region_t *free_slot(void)
             return &regions[i];
         }
     }
-    fprintf(stderr, "guard: too many regions\n");
-    abort();
+    harness_die("guard: too many regions");
 }
 
 static unsigned char *make(const unsigned char *bytes, size_t n, int writable)
@@ -76,8 +75,7 @@ static unsigned char *make(const unsigned char *bytes, size_t n, int writable)
     base = (unsigned char *)mmap(NULL, total, PROT_READ | PROT_WRITE, MAP_PRIVATE | MAP_ANONYMOUS, -1, 0);
     if (base == MAP_FAILED)
     {
-        perror("guard mmap");
-        abort();
+        harness_die("guard: mmap failed");
     }
     p = base + ps + data_pages * ps - n;
     memset(base + ps, CANARY, (size_t)(p - (base + ps)));
